@@ -79,6 +79,29 @@ def run(tier, seed):
             got = f"raised {type(ex).__name__}: {ex}"
         if got != want:
             viol.append({"id": "tag-message-altered", "witness": "tag:" + m[:12], "source": src, "got": got, "want": want})
+    # every message of <= N adjacent pieces (literal text with percent signs and parentheses
+    # directly next to variables, names that are not \\w+), sync and async
+    import asyncio
+    TAG_PIECES = [("100%", "100%"), ("%", "%"), ("%%", "%%"), ("{{ name }}", "N"), ("{{ some-name }}", "S"), ("{{ ['a b'] }}", "AB"), (" ", " "), ("(", "("), (")s", ")s"), ("%(name)s", "%(name)s"), ("a", "a"), ("%s", "%s"), ("<b>", "<b>")]
+    data = {"name": "N", "some-name": "S", "a b": "AB"}
+    for k in range(1, (3 if tier == "thorough" else 2) + 1):
+        for seq in itertools.product(TAG_PIECES, repeat=k):
+            if any(a[0].startswith("{{") and b[0].startswith("{{") for a, b in zip(seq, seq[1:])) and k > 2 and tier != "thorough":
+                continue
+            m = "".join(x[0] for x in seq)
+            want = "".join(x[1] for x in seq).strip()
+            if not m.strip():
+                continue
+            src = "{% translate %}" + m + "{% endtranslate %}"
+            for a in (False, True):
+                cases += 1
+                try:
+                    t = e.from_string(src)
+                    got = asyncio.run(t.render_async(**data)) if a else t.render(**data)
+                except Exception as ex:  # noqa: BLE001
+                    got = f"raised {type(ex).__name__}: {ex}"[:80]
+                if got != want:
+                    viol.append({"id": "tag-message-altered", "witness": "tag-adjacent:" + ("percent-next-to-variable" if "%" in m else "name"), "source": src, "got": got, "want": want})
     # the tag chooses its form by count exactly as NullTranslations.ngettext does
     import gettext as _gt
     null = _gt.NullTranslations()
@@ -99,7 +122,7 @@ def run(tier, seed):
                 got = f"raised {type(ex).__name__}"
             if got != want:
                 viol.append({"id": "plural-choice", "witness": f"tag-plural:count={n_!r}", "source": src + f" n={n_!r}", "got": got, "want": want})
-    return {"bound": f"all messages of <= {n} pieces over a {len(ALPHABET)}-piece alphabet x 5 filters; 9 counts x 4 plural forms; 6 tag messages; 16 tag counts x with/without message context", "cases": cases, "distinct": cases, "violations": viol, "sample": {"message": "100% %(name)s"}}
+    return {"bound": f"all messages of <= {n} pieces over a {len(ALPHABET)}-piece alphabet x 5 filters; 9 counts x 4 plural forms; 6 tag messages; all tag messages of <= {3 if tier == "thorough" else 2} adjacent pieces over 13 pieces, sync and async; 16 tag counts x with/without message context", "cases": cases, "distinct": cases, "violations": viol, "sample": {"message": "100% %(name)s"}}
 
 
 def replay(case):
